@@ -128,15 +128,19 @@ def execute(case, result):
     elif kind == "stepwise":
         returned = []  # (time, value) of every rule call
 
+        chosen = []  # (time, rule, supply at the call)
+
         def base(p, itv):
             steps.append((vt.clock(), itv))
             supply = p.peek()["supply"]
+            chosen.append((vt.clock(), "base", supply))
             value = None if supply % 2 else (0 if supply % 3 == 0 else p.peek()["demand"] + 1)
             returned.append((vt.clock(), value))
             return value
 
         def upper(p, itv):
             steps.append((vt.clock(), itv))
+            chosen.append((vt.clock(), "upper", p.peek()["supply"]))
             value = 0.0 if p.peek()["supply"] % 5 == 0 else 5
             returned.append((vt.clock(), value))
             return value
@@ -266,6 +270,12 @@ def execute(case, result):
                 % (times[:6], expected_steps[:6], len(times), len(expected_steps)))
         result.count("steps_checked", len(times))
         if kind == "stepwise":
+            for when, rule, supply in chosen:
+                want = "upper" if supply >= 20 else "base"
+                if rule != want:
+                    bad("the step at %r applied the %s rule although the supply was %r (threshold 20)" % (when, rule, supply))
+                    break
+                result.count("stepwise_rule_choices_checked")
             writes = {e[3]: e[2] for e in pool.log if e[0] == "w"}
             for when, value in returned:
                 if value is None:
@@ -364,6 +374,14 @@ def execute(case, result):
             if missing > 0 and before["supply"] <= before["request"] and sum(after["demand"].values()) < before["request"]:
                 bad("adjustment %d did not spawn although %r demand was missing" % (k, missing))
                 break
+            released = [i for i in before["hatchery"] - after["hatchery"] if before["demand"].get(i, 0) > 0]
+            active_after = sum(after["demand"].get(i, 0) for i in after["hatchery"])
+            if released and active_after < after["request"]:
+                bad("adjustment %d released %d child(ren) that still had demand although the remaining active demand %r does not cover the request %r"
+                    % (k, len(released), active_after, after["request"]))
+                break
+            if released:
+                result.count("factory_releases_checked")
             if idle or missing > 0:
                 result.count("factory_needed_adjustments_observed")
         if case["params"].get("weak"):
@@ -401,7 +419,7 @@ def finish(total, tier):
                                               "buffer_boundaries_checked", "factory_adjustments_checked", "factory_children_spawned",
                                               "factory_needed_adjustments_observed", "switch_slave_steps_checked", "stepwise_step_effects_checked",
                                               "buffer_runs_with_pending_value_at_start", "runs_with_intervals_that_are_not_dyadic", "factory_runs_with_children_only_the_pool_holds",
-                                              "buffer_writes_of_nearly_equal_values", "switch_runs_with_two_slaves"]
+                                              "buffer_writes_of_nearly_equal_values", "switch_runs_with_two_slaves", "stepwise_rule_choices_checked", "factory_releases_checked"]
     for name in need:
         if not total.counters.get(name) and not total.violations:
             total.inconc("monitor never observed: " + name)
